@@ -15,7 +15,7 @@ def _ticks_s(sec: float) -> int:
 def lex(text: str) -> dict:
     text = text.replace("\r\n", "\n").replace("\r", "\n")
     text = re.sub(r"//[^\n]*", "", text)          # comments run to the end of the line
-    tok = {"hdr": [], "junk": 0, "off": 0, "bpms": [], "charts": [], "stops": 0,
+    tok = {"hdr": [], "junk": 0, "off": 0, "bpms": [], "charts": [], "stops": [],
            "sample_start": 0, "sample_length": 0, "bpms_exact": True}
     for piece in text.split(";"):
         p = piece.strip()
@@ -70,7 +70,10 @@ def lex(text: str) -> dict:
                         tok["bpms_exact"] = False
                     tok["bpms"].append({"p": int(p), "bl": int(round(60000.0 / bpm * T)), "bpm1000": int(round(bpm * 1000))})
             elif tag == "STOPS":
-                tok["stops"] = len([x for x in v.split(",") if x.strip()])
+                for pair in v.replace("\n", "").split(","):
+                    if pair.strip():
+                        b, ln = pair.split("=")
+                        tok["stops"].append({"p": int(round(float(b) * 4800)), "len": _ticks_s(float(ln))})
         except (ValueError, ZeroDivisionError):
             tok["junk"] += 1
     return tok
@@ -105,7 +108,7 @@ def concretize(scn, style=0, extra_charts=()) -> str:
            ("LYRICSPATH", ""), ("CDTITLE", ""), ("MUSIC", "a.ogg"), ("OFFSET", _fmt(-scn["off"] / T / 1000)),
            ("SAMPLESTART", "12.5"), ("SAMPLELENGTH", "10"), ("SELECTABLE", "YES"),
            ("BPMS", ("," + (nl if style == 1 else "")).join(f"{_fmt(b['p48'] / 48)}={_fmt(60000.0 * T / b['bl'])}" for b in scn["bpms"])),
-           ("STOPS", ""), ("BGCHANGES", "")]
+           ("STOPS", ",".join(f"{_fmt(st['p48'] / 48)}={_fmt(st['len'] / T / 1000)}" for st in scn.get("stops", []))), ("BGCHANGES", "")]
     for t, v in hdr:
         out.append(f"#{t}:{v};")
         if style == 1 and t == "ARTIST":
